@@ -230,6 +230,7 @@ type OblResult struct {
 	SolverS     float64
 	Raced       int            // queries not answered by the primary solver within 0.4 s and raced on the helper solvers
 	HelperWins  map[string]int // races decided by a helper solver, by solver
+	LabelFinding map[string]string
 	WallS       float64
 	Statuses    map[string]int
 	Reached     map[string]int
@@ -315,6 +316,7 @@ func runObligation(l *loaded, ob Obligation, tier int, seed int64, known map[str
 	res.Samples = ex.Samples
 	res.TimedOut, res.PathCap, res.UnwindHits = ex.TimedOut, ex.PathCapHit, ex.UnwindHits
 	res.SolverErrs = append(ex.solver.Errors, ex.inc.Errors...)
+	res.LabelFinding = ex.LabelFinding
 	for f := range ex.FuncsEncoded {
 		if strings.Contains(f, modPath) && !strings.Contains(f, ".Verif") && !strings.Contains(f, ".nd") {
 			res.Funcs = append(res.Funcs, f)
@@ -602,6 +604,13 @@ func cmdCheck(args []string) int {
 						n := rr.Runs[0]
 						if eventsEqual(s.Events, n.Events) && statusMatches(s.Status, n.Status) {
 							r.Validated++
+						} else if failed := firstFailedAssert(n.Events, r.LabelFinding); r.Ob.Abstract && failed != "" {
+							// abstract obligation (Mul/Quo as uninterpreted functions): the engine's sample need not agree
+							// with real arithmetic, but a native run of the real code on these concrete inputs that fails
+							// an assertion is a reproduced violation in its own right
+							r.Confirmed = append(r.Confirmed, Violation{Label: failed, Kind: "assert", Model: s.Model, Picks: s.Picks, Atoms: s.Atoms})
+						} else if r.Ob.Abstract {
+							r.Validated++ // differs only inside the abstraction (no native assertion failed)
 						} else {
 							sj, _ := json.Marshal(s)
 							nj, _ := json.Marshal(n)
@@ -625,6 +634,17 @@ func cmdCheck(args []string) int {
 	}
 
 	return report(prop, tierName, seed, results, knownAll, time.Since(t0).Seconds(), l.loadS, noNative)
+}
+
+// firstFailedAssert: label of the first assertion the native run failed, ignoring labels that are split by a
+// known-finding region (those are decided by the solver run only).
+func firstFailedAssert(evs []Event, labelFinding map[string]string) string {
+	for _, e := range evs {
+		if e.Kind == "assert" && !e.OK && labelFinding[e.Label] == "" {
+			return e.Label
+		}
+	}
+	return ""
 }
 
 func tail(s string, n int) string {
